@@ -771,6 +771,13 @@ def rule_bottomup(ctx):
             anc = ancestors(es, es.orig_operand(v.args[0]))
             R.ob('BU-S2-req-receiver', key, reqs[0][0].bb in anc, 'the dependency asked is the requirer\'s dependency under iteration' if reqs[0][0].bb in anc else 'verdict receiver is not the iterated dependency',
                  ctx.where(es, v.bb), props=('C03',))
+    if reqs and vts:
+        nx = [x for x in es.find_calls(lambda x: x.qname == 'std::iter::Iterator::next') if reqs[0][0].bb in ancestors(es, es.orig_operand(x.args[0]))]
+        some_e = [n for x in nx for n, g in guard_edges_on_call(es, x) if g.variants() == frozenset(['Some'])]
+        w = _every_item_examined(ctx, es, some_e, vts, {x.bb for x in nx}) if some_e else 'the loop over the requirers was not found'
+        R.ob('BU-S2-every-requirer', key, w is None, 'every requirer of the executed task is checked against the new output (only a currently executing / already queued task may be skipped)' if w is None
+             else 'a requirer of the executed task can be skipped without its dependency being checked against the new output (a task made consistent earlier in the session is not exempt):\n%s' % w,
+             ctx.where(es, reqs[0][0].bb), props=('C03',))
     # S4 polarity: schedule on the false edge, not on the true edge
     vg = verdict_guards(ctx, es, vts)
     adds = _queue_adds(ctx, es, q_add)
@@ -808,6 +815,9 @@ def rule_bottomup(ctx):
     key = ts.path
     inf = ctx.infeasible(ts)
     vcs = ts.find_calls(lambda c: c.qname == VERDICT_BU_RES)
+    w = _every_item_examined(ctx, ts, [0], vcs, ()) if vcs else 'no dependency check found'
+    R.ob('BU-S3-checked', key, w is None, 'the dependency handed in is always checked (only a currently executing / already queued task may be skipped)' if w is None
+         else 'the scheduling test can return without checking the dependency (a task made consistent earlier in the session is not exempt):\n%s' % w, ctx.where(ts), props=('C03',))
     vg = verdict_guards(ctx, ts, vcs)
     adds = _queue_adds(ctx, ts, q_add)
     ab = {c.bb for c in adds}
@@ -939,6 +949,50 @@ def rule_bottomup(ctx):
             seen = dl.reach([0], avoid=ctx.both(ctx.infeasible(dl), lambda n: n in none_e))
             esc = [r for r in dl.returns() if r in seen]
             R.ob('BU-drain-all', dl.path, not esc, 'the drain loop ends only when the queue is empty' if not esc else 'the drain loop can stop while tasks remain scheduled', ctx.where(dl), props=('C03',))
+
+
+def _admissible_skip_edges(ctx, body):
+    """Edges on which a dependant may be skipped without being examined: the true edge of `set.contains(x)` for a set
+    that is NOT the session's memo of tasks made consistent in this session (today: the set of currently executing
+    tasks - such a task re-validates its dependency itself when its require returns - or the queue's own membership
+    set). The session memo is not admissible: a task validated earlier in the session is exactly what a later
+    re-execution of one of its dependencies invalidates."""
+    F, roles = ctx.F, ctx.roles
+    out = set()
+    for (bb, k), g in body.guards.items():
+        if g.kind != 'bool' or g.truth() is not True:
+            continue
+        for sc in g.subject_calls():
+            if not sc.qname.endswith('HashSet::contains') or not sc.args:
+                continue
+            ro = body.orig_operand(sc.args[0])
+            if ctx.has_field(ro, roles.f_consistent):
+                continue
+            bad = False
+            for o in ro:
+                if o.kind == 'arg':  # a set handed in by the caller: look at what the callers pass
+                    for cb in F.bodies.values():
+                        if cb.crate != body.crate or cb.is_test_code():
+                            continue
+                        for c in cb.calls.values():
+                            if is_callee(ctx, c, body) and o.key - 1 < len(c.args) and ctx.has_field(cb.orig_operand(c.args[o.key - 1]), roles.f_consistent):
+                                bad = True
+            if not bad:
+                out.add(('e', bb, k))
+    return out
+
+
+def _every_item_examined(ctx, body, starts, verdict_calls, stops):
+    """None if every path from `starts` meets a verdict call before reaching `stops` / a return, except through an
+    admissible skip; else a witness path."""
+    inf = ctx.infeasible(body)
+    vb = {c.bb for c in verdict_calls}
+    adm = _admissible_skip_edges(ctx, body)
+    seen = body.reach(starts, avoid=ctx.both(inf, lambda n: n in vb or n in adm))
+    for t in list(stops) + list(body.returns()):
+        if t in seen:
+            return body.fmt_path(body.witness(seen, t))
+    return None
 
 
 def _loop_feeds_try_sched(ctx, body, qcall, bu, rule):
